@@ -1,5 +1,6 @@
 import Mathlib.Analysis.SpecialFunctions.ExpDeriv
 import PyRatesModel.Analysis.DiffSound
+import PyRatesModel.Net.Jac
 /-!
 # C12 — get_jacobian_func returns the derivative of get_run_func
 
@@ -7,6 +8,8 @@ import PyRatesModel.Analysis.DiffSound
   environment and variable (named unary functions under the hypothesis that `f'` is the derivative of `f`).
 * the model's Jacobian table (`Net.jacobian`) is keyed by (row path, column path) - the same addressing as the state layout of C01 -
   so "in the same state ordering" is a statement about the layout only.
+* `C12_subst_eval`, `C12_sumExprs_eval`: inlining algebraic intermediates and summing the sources of an input variable is composition -
+  the closed right-hand side that is differentiated denotes the vector field of the specification.
 * polynomial corollary: without named functions the hypothesis on `f'` is vacuous.
 -/
 namespace PyRates.Net
@@ -58,5 +61,32 @@ theorem C12_diff_sound_polynomial (ρ : String → ℝ) (x : String) (e : Expr) 
     funext v; exact evalR_poly _ _ _ e h
   rw [e1, evalR_poly (fun _ _ => 0) (fun _ => Real.exp) ρ (D x e) (D_poly x e h)]
   exact key
+
+/-! ## inlining of algebraic intermediates -/
+
+/-- inlining is composition: the value of an expression whose variables were replaced by closed expressions is the value of the
+expression in the environment that binds every variable to the value of its closed expression -/
+theorem C12_subst_eval (I : Interp) (ρ : String → Rat) (σ : String → Expr) (e : Expr) :
+    eval I ρ (substAll σ e) = eval I (fun x => eval I ρ (σ x)) e := by
+  induction e with
+  | num q => rfl
+  | var x => rfl
+  | add a b iha ihb | sub a b iha ihb | mul a b iha ihb => simp only [substAll, eval, iha, ihb]
+  | neg a ih => simp only [substAll, eval, ih]
+  | pow a k ih => simp only [substAll, eval, ih]
+  | call1 f a ih => simp only [substAll, eval, ih]
+  | call2 f a b iha ihb => simp only [substAll, eval, iha, ihb]
+
+/-- the closed expression of an input variable is the sum of the closed expressions of its sources -/
+theorem C12_sumExprs_eval (I : Interp) (ρ : String → Rat) (es : List Expr) :
+    eval I ρ (sumExprs es) = (es.map (eval I ρ)).sum := by
+  induction es with
+  | nil => rfl
+  | cons e rest ih =>
+    cases rest with
+    | nil => simp [sumExprs, Rat.add_zero]
+    | cons e2 r2 =>
+      simp only [sumExprs, eval, List.map_cons, List.sum_cons] at ih ⊢
+      rw [ih]
 
 end PyRates.Net
